@@ -31,6 +31,5 @@ Definition tokenize_enc (s : str) : list N :=
   | PFuel => [3%N]
   end.
 
-From Delb.XPath Require Import Classify.
-(* outcome and classes in one list: [n classes] ++ classes ++ outcome *)
-Definition parse_case (s : str) : list N := enc_list (fun c => [c]) (classes_of s) ++ parse_enc s.
+(* the outcome when the interpreter runs out of stack during the call *)
+Definition parse_overflow_enc (s : str) : list N := enc_outcome s (parse_under true s).
